@@ -9,10 +9,10 @@ import (
 
 // Spec: quick = 40k runs, thorough = 1.5M runs (plus more giant-line runs).
 func Spec(tier string, seed uint64) *core.CheckSpec {
-	runs := 40000
+	runs, pipe := 60000, 1500
 	budget := 4 * time.Minute
 	if tier == "thorough" {
-		runs = 1500000
+		runs, pipe = 1500000, 12000
 		budget = 25 * time.Minute
 	}
 	return &core.CheckSpec{
@@ -21,6 +21,7 @@ func Spec(tier string, seed uint64) *core.CheckSpec {
 		MaxExec: 3000,
 		Legs: []*core.Leg{
 			{Name: "disk-sim", Runs: runs, Opt: core.RunOpt{Tier: tier, Leg: "disk-sim"}},
+			{Name: "pipeline", Runs: pipe, Offset: 1 << 30, Opt: core.RunOpt{Tier: tier, Leg: "pipeline"}},
 		},
 		Coverage: coverage,
 		Assumptions: []string{
@@ -42,7 +43,9 @@ func coverage(a *core.Agg) map[string]any {
 		samples = append(samples, v)
 	}
 	return map[string]any{
-		"evaluations":         a.Counters["executions"],
+		"evaluations": a.Counters["executions"] + a.Counters["pipeline_executions"],
+		"pipeline_leg": map[string]any{"executions": a.Counters["pipeline_executions"], "diagnostics_judged": a.Counters["op.pipeline_diagnostic_judged"],
+			"what": "generated multi-package worlds with long leading/trailing comments on reported statements, analysed by all real analyzers under checker-sim; every emitted message judged by the same reference renderer; read faults (eio / empty / short / edited) planted on source files"},
 		"distinct_nontrivial": a.DistinctCount("nontrivial"),
 		"rule": "one evaluation = one seeded operation sequence (report/edit/arm-fault/clear over 1-3 files and 1-3 reporters) executed against the real reporting.Reporter over the simulated disk; " +
 			"distinct = distinct event-log hash (every op, every read with the bytes served or the error, every emitted message); non-trivial = at least one report was executed and judged",
